@@ -147,12 +147,28 @@ class FakeSock:
             ev.pop(0)
         return out
 
+    def _peek(self, n):
+        """recv(n, MSG_PEEK): what the next recv would return, nothing consumed"""
+        if self.really_closed:
+            raise OSError(9, "Bad file descriptor")
+        ev = self.peer.events
+        if not ev:
+            if self.net.clock is not None and self.timeout:
+                self.net.clock.advance(self.timeout)
+            raise _real_socket.timeout("timed out")
+        e = ev[0]
+        if isinstance(e, BaseException):
+            raise e                   # a pending error is reported (and stays pending, as SO_ERROR would not - close enough for a peek)
+        return bytes(e[:n])
+
     def recv(self, n, flags=0):
+        if flags & _real_socket.MSG_PEEK:
+            return self._peek(n)
         return self._recv(n)
 
     def recv_into(self, buf, nbytes=0, flags=0):
         n = nbytes or len(buf)
-        data = self._recv(n)
+        data = self._peek(n) if flags & _real_socket.MSG_PEEK else self._recv(n)
         buf[: len(data)] = data
         return len(data)
 
